@@ -609,7 +609,7 @@ P["C20"] = {"property": "C20", "level": "proof", "units": [
     U("C20.bounded.jwt_verify.stdin", "main (tools/jwt-verify.c) with process_one: content of the tokens read from standard input", "tools/jwt-verify.c", "contracts/tools_c.h",
       "int argc; char **argv; tool_main(argc, argv);", "tool_main/contract_C20_jwt_verify_main_stdin",
       stubs=TOOLS_STUBS, defines=["main=tool_main", "VERIF_STDIN_MODEL"], flags=[], kind="bounded",
-      unwindset="tool_main.0:18,tool_main.1:3,tool_main.2:4,tool_main.3:4,fill_line.0:7,strlen.0:9,strcspn.0:9,jwt_checker_verify.0:7",
+      unwindset="tool_main.0:18,tool_main.1:3,tool_main.2:4,tool_main.3:4,fill_line.0:7,strlen.0:9,strcspn.0:9,jwt_checker_verify.0:7", unwind_default=6,
       bound="at most 2 arguments, 1 option, 2 stdin lines of at most 3 characters (loops unwound to these bounds, unwinding assertions on)",
       expect=["jwt_checker_verify\\.assertion\\.3", "exit\\.assertion\\.1", "unwind"], timeout=3000, tier="thorough"),
 ] + [
